@@ -29,6 +29,7 @@ type C02Plan struct {
 	IterFault int     `json:"iter_fault,omitempty"` // >0: separate scenario: the backend query ends with an error after n-1 records
 	FlushAPI  bool    `json:"flush_api,omitempty"`  // the delayed-write cache is flushed with Interface.FlushCache instead of by stopping its writer
 	Slow      int     `json:"slow,omitempty"`       // slow-consumer scenario: number of records queried by a consumer that stalls after the first one
+	BgMaint   bool    `json:"bg_maint,omitempty"`   // maintenance runs in the background, one pass per operation, at the same time as the operation (it never changes what is visible)
 }
 
 // C02Op is one interface operation.
@@ -91,6 +92,7 @@ func genC02(rng *rand.Rand, tier string) *C02Plan {
 		n = 2 + rng.IntN(30)
 	}
 	p.FlushAPI = p.Cache == 2 && rng.IntN(2) == 0
+	defer func() { p.BgMaint = p.IterFault == 0 && p.Slow == 0 && (p.BgMaint || rng.IntN(5) == 0) }()
 	switch rng.IntN(10) {
 	case 0:
 		// expiry scenario: one record whose expiry is set several times in different ways, with reads in between
@@ -140,6 +142,26 @@ func genC02(rng *rand.Rand, tier string) *C02Plan {
 		for _, k := range ks {
 			p.Ops = append(p.Ops, C02Op{Kind: "get", Key: k})
 		}
+	case 4:
+		// expired (or deleted) records that are written afresh while maintenance is at work in the background
+		ks := rng.Perm(len(keyPool))[:2+rng.IntN(3)]
+		for _, k := range ks {
+			p.Ops = append(p.Ops, C02Op{Kind: "put", Key: k, Seed: rng.IntN(1 << 20), Wrapped: rng.IntN(2) == 0})
+			if rng.IntN(3) == 0 {
+				p.Ops = append(p.Ops, C02Op{Kind: "delete", Key: k})
+			} else {
+				p.Ops = append(p.Ops, C02Op{Kind: []string{"setabs", "setrel"}[rng.IntN(2)], Key: k, Secs: []int{1, 5}[rng.IntN(2)]})
+			}
+		}
+		p.Ops = append(p.Ops, C02Op{Kind: "advance", Secs: 60})
+		for _, k := range ks {
+			p.Ops = append(p.Ops, C02Op{Kind: []string{"put", "putnew"}[rng.IntN(2)], Key: k, Seed: rng.IntN(1 << 20), Wrapped: rng.IntN(2) == 0})
+		}
+		for _, k := range ks {
+			p.Ops = append(p.Ops, C02Op{Kind: "get", Key: k})
+		}
+		p.Ops = append(p.Ops, C02Op{Kind: "query"})
+		defer func() { p.BgMaint = true }()
 	case 3:
 		// second database: the same interface also writes to a database its delayed-write setting does not name
 		k := rng.IntN(len(keyPool))
@@ -420,10 +442,38 @@ func execC02(p *C02Plan, rc *simkit.RunCtx) {
 		execSlowConsumer(s)
 		return
 	}
+	var maintTok chan struct{}
+	if p.BgMaint {
+		maintTok = make(chan struct{}, 4)
+		maintDone := make(chan struct{})
+		go func() {
+			defer close(maintDone)
+			n := 0
+			for range maintTok {
+				n++
+				if n%3 == 0 {
+					_ = database.Maintain(context.Background())
+				} else {
+					_ = database.MaintainRecordStates(context.Background())
+				}
+			}
+		}()
+		defer func() {
+			close(maintTok)
+			<-maintDone
+		}()
+		rc.Probe("maintenance-in-the-background")
+	}
 	for oi, op := range p.Ops {
 		key := keyPool[op.Key]
 		full := dbName + ":" + key
 		when := fmt.Sprintf("after op %d (%s %s)", oi, op.Kind, key)
+		if maintTok != nil && op.Kind != "maintain" && op.Kind != "maintainall" {
+			select {
+			case maintTok <- struct{}{}:
+			default:
+			}
+		}
 		now := nowUnix()
 		rc.H("%s", op.Kind)
 		switch op.Kind {
